@@ -246,7 +246,9 @@ def render(model, rseed, *, comments=True, colours=True, dense=False):
     def maybe_comment(p):
         if comments and rng.random() < (max(p, 0.9) if dense else p):
             c = str(rng.choice(["a comment", "( | ) 1 2 3", "Root", "R-1-2", "",
-                                "tab\there ; again", "tip a)", "(see note", ")))", "| ( ("]))
+                                "tab\there ; again", "tip a)", "(see note", ")))", "| ( (",
+                                "page\x0cbreak (1 2 3 4)", "unit\x1fsep \x85 nel", "ls\u2028ps\u2029 x",
+                                "vt\x0b (9 9 9 9)"]))
             if dense:
                 c += " ; (7 7 7 1) removed, 1281, R-2 " * int(rng.integers(1, 4))
             toks.append("; " + c + "\n")
